@@ -278,7 +278,7 @@ fn main() {
                                 }
                             }
                             if let TyKind::RigidTy(RigidTy::Closure(def, gargs)) = t.kind() {
-                                if let Ok(callee) = Instance::resolve_closure(def, &gargs, rustc_public::ty::ClosureKind::FnOnce) {
+                                if let Ok(callee) = Instance::resolve_closure(def, &gargs, rustc_public::ty::ClosureKind::FnMut).or_else(|_| Instance::resolve_closure(def, &gargs, rustc_public::ty::ClosureKind::FnOnce)) {
                                     reified.insert(ty_key(&t), json!({"key": callee.mangled_name(), "name": callee.name()}));
                                     if seen.insert(callee.mangled_name()) { queue.push_back(callee); }
                                 }
@@ -326,7 +326,7 @@ fn main() {
                         }
                     }
                     if let TyKind::RigidTy(RigidTy::Closure(def, gargs)) = t.kind() {
-                        if let Ok(callee) = Instance::resolve_closure(def, &gargs, rustc_public::ty::ClosureKind::FnOnce) {
+                        if let Ok(callee) = Instance::resolve_closure(def, &gargs, rustc_public::ty::ClosureKind::FnMut).or_else(|_| Instance::resolve_closure(def, &gargs, rustc_public::ty::ClosureKind::FnOnce)) {
                             reified.insert(ty_key(t), json!({"key": callee.mangled_name(), "name": callee.name()}));
                             if seen.insert(callee.mangled_name()) { queue.push_back(callee); }
                         }
